@@ -23,21 +23,44 @@ import tempfile
 
 import numpy as np
 
-from runner import Infra, isolated_map
+from runner import Infra, TieBroken, isolated_map, generated_changed
 
 ID = "C05"
-LEAN_MODULES = ["PyYetiVerif.Props.C05", "PyYetiVerif.Audit.C05"]
+LEAN_MODULES = ["PyYetiVerif.Props.C05", "PyYetiVerif.Props.C05Gen", "PyYetiVerif.Props.C05Struct",
+                "PyYetiVerif.Audit.C05"]
 AUDIT_FILE = "PyYetiVerif/Audit/C05.lean"
 THEOREMS = [
     "PyYetiVerif.C05." + n
     for n in (
         "count_total rows_total cycle_values cycle_values_abs offsets_variant_agrees "
-        "loop_exit refines_astm negate shift scale largest_range_counted largest_range_needs_reversals"
+        "loop_exit refines_astm negate shift scale largest_range_counted largest_range_needs_reversals "
+        # the source as translated (Generated/PyRain.lean, Generated/RainflowWrap.lean) is the model
+        "generated_rainflow1_eq_model generated_rainflow2_eq_model generated_entry_eq_model "
+        "generated_wrapper_eq_model generated_rainflow2_eq_model_field "
+        "generated_c_rainflow1_eq_model generated_c_rainflow2_eq_model generated_c_eq_generated_py "
+        # entry points
+        "entry_refuses_iff entry_other_errors entry_impls_agree_partial entry_impls_agree_needs_safe "
+        "entry_result_shape wrapper_is_relabel call_history_irrelevant "
+        # structure of the table
+        "rows_in_closing_order full_cycles_laminar starts_stops_unique residual_half_cycles_chain "
+        "duplicate_first range_le_overall duplicate_first_field plateau_erases_point "
+        "duplicate_insertion_not_harmless monotone_points_are_counted"
     ).split()
 ]
 TRUSTED = [
-    "correspondence harness harness/props/c05.py (exact comparison on integer/dyadic inputs)",
-    "gcc build of c_rain.c from the working tree (both settings of USE_FASTER_RAINFLOW_ROUTINE)",
+    "correspondence harness harness/props/c05.py (exact comparison: integers for the list model, IEEE bit patterns "
+    "for the generated programs and the entry model run at Float)",
+    "translator harness/translate/c05_pyrain.py (Python ast; grammar and embedding semantics in its docstring and in "
+    "Model/RainflowImp.lean; anything outside the grammar breaks the tie); its output is compared bit for bit with "
+    "py_rain on every run",
+    "translator harness/translate/c05_crain.py (a C-subset parser for rainflow1/rainflow2 of c_rain.c and the numpy "
+    "C-API idioms listed in its docstring: calloc, PyArray_SimpleNew, PyArray_DATA cursors, the slice-and-return block); "
+    "its output for both macro settings is compared bit for bit with the gcc build on every run",
+    "gcc build of c_rain.c from the working tree (both settings of USE_FASTER_RAINFLOW_ROUTINE); the C entry function "
+    "`rainflow` (argument parsing, PyArray_FROM_OTF) is tied by correspondence only",
+    "numpy's conversion of the caller's object to an array (np.atleast_1d / PyArray_FROM_OTF) and pandas' DataFrame "
+    "constructor: observed by the container/dtype streams, not modelled",
+    "Lean's Float is the machine's IEEE double (used only to run the generated programs, never in a proof)",
     "numba-decorated py_rain is the same source text as plain py_rain (numba not installed: not executed)",
     "for doubles whose differences round, agreement with the real-number ASTM procedure is not claimed",
 ]
@@ -45,28 +68,79 @@ RULE = (
     "sequences over small integer alphabets (exhaustive by length) plus seeded random integer/"
     "dyadic sequences with ties, plateaus and monotone runs; a case is one (sequence) compared on "
     "all seven implementation variants; non-trivial = length >= 3 and at least one cycle is closed "
-    "inside the loop (step 4 or 5) before step 6; distinct by the sequence itself"
+    "inside the loop (step 4 or 5) before step 6; distinct by the sequence itself. Generated programs and entry model: "
+    "the same sequences plus arbitrary finite doubles (not dyadic: differences round), compared by bit pattern; "
+    "containers/dtypes/shapes: every variant of a base sequence (list, tuple, Series with default/permuted/reversed "
+    "index, Index, memoryview, array.array, range, 0-d, 1xn, nx1, 3-d, empty, one point, bool/int*/uint*/float16/32/64/"
+    "longdouble, strided/negative-stride/Fortran/read-only/byte-swapped/unaligned views) on every entry point; call "
+    "sequences: random sessions of calls with getoffsets omitted / keyword / positional and use_pandas omitted/True/False "
+    "on one set of modules. NaN/inf inputs, complex, object and masked arrays are outside the property's domain: "
+    "skipped and counted."
 )
 ASSUMPTIONS = [
     "float arithmetic on the generated integer/dyadic inputs is exact",
+    "theorems about the translated source are over any element type whose abs(a-b) is the model's |a-b| (every ordered "
+    "field); at IEEE doubles the translated program is run, not proved about",
 ]
 MANIFEST = {
-    "level_text": "Proof (Lean 4, kernel-checked, standard axioms only) about an exact model of the rainflow stack "
-    "machine: 2*sum(count) = L-1, row count, every row carries the range/sum of the two points its offsets name "
+    "level_text": "Proof (Lean 4, kernel-checked, standard axioms only). (1) About an exact list model of the rainflow "
+    "stack machine: 2*sum(count) = L-1, row count, every row carries the range/sum of the two points its offsets name "
     "(start < stop < L), the offsets-free variant computes the same table, the loop exits exactly where the code's "
-    "tests say (termination by well-founded recursion), the code's `j == 2` test equals ASTM E1049's 'Y contains the "
-    "starting point S' (refinement of an explicit-S transcription of the standard), and negate/shift/scale "
-    "equivariance over any ordered field, and that for strictly alternating input the overall range is one of the counted ranges. The model is tied to py_rain.py, to c_rain.c compiled from the working tree "
-    "with and without USE_FASTER_RAINFLOW_ROUTINE and to the cyclecount wrapper by exact correspondence "
-    "(exhaustive small alphabets + seeded random integer/dyadic sequences). Right level: the algorithm is a pure "
-    "stack machine on exactly comparable values, so the whole property is provable.",
-    "level_note": "Trusted: Lean kernel; propext, Classical.choice, Quot.sound; the Python harness; gcc. Theorems are "
-    "over exact arithmetic: for doubles whose differences round, C and Python perform identical IEEE operations but "
-    "agreement with the real-number ASTM procedure is not claimed. 'largest range is always counted' is proved for true reversal sequences "
-    "(strict alternation; `[0,1,2]` shows the hypothesis is necessary). numba variant = same source text, not executed (numba absent).",
-    "technique": "Lean 4 proof (induction over the stack machine, refinement to an ASTM spec) + exact differential correspondence with py_rain and gcc-built c_rain",
+    "tests say, the code's `j == 2` test equals ASTM E1049's 'Y contains the starting point S' (refinement of an "
+    "explicit-S transcription of the standard), negate/shift/scale equivariance over any ordered field, the overall "
+    "range is counted for strictly alternating input; structure of the table: rows are listed in closing order (no "
+    "later row has an endpoint inside an earlier one; full cycles are nested or disjoint; every index is start of at "
+    "most one row and stop of at most one), the half cycles form one chain 0 = s1 < e1 = s2 < ... = L-1, every range "
+    "is at most the overall range, and exactly what a plateau does (a repeated first point only adds a zero half "
+    "cycle; an interior plateau is counted as a zero full cycle that ERASES the point from the stack). (2) About the "
+    "source itself: harness/translate/c05_pyrain.py re-emits py_rain.py (`rainflow`, `_rainflow1`, `_rainflow2`) and "
+    "the import block + wrapper of cyclecount.py, harness/translate/c05_crain.py (a C-subset parser) re-emits "
+    "`rainflow1`/`rainflow2` of c_rain.c for both macro settings, as shallow embeddings (arrays, indices j/n, pointer "
+    "bumps `*rf++`, in-place writes, break, the final slice; failure on any out-of-range index, unwritten cell or "
+    "exhausted fuel) and Lean proves for all inputs that the Python programs and the C programs of the shipped "
+    "configuration (USE_FASTER_RAINFLOW_ROUTINE defined) never fail and compute the model's table "
+    "(generated_*_eq_model, generated_c_*_eq_model, generated_c_eq_generated_py), so every theorem holds of what "
+    "the source says now. (3) Entry points: ValueError iff not a vector of >= 2 points, result shape, the wrapper is "
+    "a relabelling, results do not depend on the call history. Tie: the translator (regenerated and re-proved every "
+    "run) + exact correspondence of model, generated programs (bit for bit at IEEE doubles, including non-dyadic "
+    "values) and entry model with py_rain, gcc-built c_rain (both macro settings) and the wrapper over containers, "
+    "dtypes, shapes and call sequences.",
+    "level_note": "Trusted: Lean kernel; propext, Classical.choice, Quot.sound; the Python harness and translator; gcc; "
+    "numpy's array conversion and pandas' DataFrame constructor (observed, not modelled). The C entry function "
+    "(PyArg_ParseTupleAndKeywords, PyArray_FROM_OTF, the ndim/L test) and the two-pass C variant (macro undefined: "
+    "translated and compared bit for bit, not proved) are tied by correspondence only. Theorems are over exact arithmetic: for doubles whose differences round, C and Python "
+    "perform identical IEEE operations (checked bit for bit against the translated program) but agreement with the "
+    "real-number ASTM procedure is not claimed. 'largest range is always counted' is proved for true reversal "
+    "sequences only (`[0,1,2]` shows the hypothesis is necessary). The two implementations agree only for dtypes that "
+    "cast safely to float64: for np.longdouble (also complex, object) c_rain raises TypeError where py_rain counts "
+    "(entry_impls_agree_partial; reported as a failing input). numba variant = same source text, not executed.",
+    "technique": "Lean 4 proof (induction over the stack machine, refinement to an ASTM spec, refinement of "
+    "source-to-Lean shallow embeddings of py_rain.py, cyclecount.py and c_rain.c to the model) + exact differential correspondence "
+    "with py_rain, gcc-built c_rain and the wrapper",
 }
-PARTIAL = ""
+PARTIAL = (
+    "entry_impls_agree (py_rain and c_rain are the same function of (peaks, getoffsets)) is proved only for arrays "
+    "whose dtype casts safely to float64 (entry_impls_agree_partial); entry_impls_agree_needs_safe shows the "
+    "hypothesis is necessary: for np.longdouble / complex / object arrays c_rain raises TypeError where py_rain "
+    "returns a table. duplicate_insertion is false as first stated (a repeated interior point is erased, not just "
+    "recorded as a zero-range entry): proved are duplicate_first, plateau_erases_point and the counterexample "
+    "duplicate_insertion_not_harmless. c_rain.c: rainflow1/rainflow2 are translated for both macro settings; the "
+    "refinement proof is done for the shipped setting (USE_FASTER_RAINFLOW_ROUTINE defined: generated_c_rainflow1/2_eq_model, "
+    "which also pin `shippedFast = true`), not for the two-pass variant without the macro (it needs one more invariant: "
+    "the rows written so far are a prefix of the final table whose length pass one has counted); the C entry function "
+    "`rainflow` (O|p parsing, PyArray_FROM_OTF) is modelled by hand (cEntry) and tied by correspondence."
+)
+
+
+def translate(ctx):
+    from translate import c05_pyrain
+
+    c05_pyrain.generate(ctx.repo, ctx.lean)
+    c05_pyrain.generate_wrapper(ctx.repo, ctx.lean)
+    from translate import c05_crain
+
+    c05_crain.generate(ctx.repo, ctx.lean)
+    return ["PyRain.lean", "RainflowWrap.lean", "CRain.lean"]
 
 
 def _build_c(repo):
@@ -286,7 +360,343 @@ def correspondence(ctx):
         if i % 20000 == 0:
             ctx.sample({"seq": list(seq)[:40], "scale": scale, "model_rows": m_off[:4] if isinstance(m_off, list) else m_off})
     ctx.exhaustive = False  # exhaustive only over the finite set named in extra.exhaustive_set
-    ctx.require_branches(["branch:full-cycle(step4)", "branch:half-nonadjacent", "branch:value-error"])
+    _streams_float(ctx, impls, cases)
+    ctx.require_branches([
+        "branch:full-cycle(step4)", "branch:half-nonadjacent", "branch:value-error",
+        "float:dyadic", "float:non-dyadic", "float:exact-tie",
+        "reply:generated:tables", "reply:generated:table", "reply:generated:frames", "reply:generated:frame",
+        "reply:generated:value-error", "stream:generated-c-2f", "stream:generated-c-1f", "stream:generated-c-2s",
+        "stream:generated-c-1s", "reply:entry:tables", "reply:entry:table", "reply:entry:value-error",
+        "reply:entry:type-error", "reply:wrapper:frames", "reply:wrapper:frame", "reply:wrapper:tables",
+        "reply:wrapper:table", "reply:wrapper:value-error", "reply:call:value-error", "reply:call:tables",
+        "reply:call:frames", "container:series", "container:memoryview", "container:0", "container:1xn",
+        "container:nx1", "container:dtype", "container:unaligned", "callseq:session", "callseq:omitted-after-true",
+    ])
+
+
+# ---------------------------------------------------------------------------------------
+# generated programs / entry model at IEEE doubles: requests and canonical forms
+
+
+def _bits(a):
+    return [int(v) for v in np.ascontiguousarray(np.asarray(a, dtype=np.float64)).view(np.uint64).ravel()]
+
+
+def _nd(shape, data):
+    return " ".join(str(int(d)) for d in shape) + " | " + " ".join(str(b) for b in _bits(data))
+
+
+def _rows(a):
+    a = np.asarray(a)
+    if a.ndim != 2:
+        return "bad-ndim-%d" % a.ndim
+    if a.dtype == np.float64:
+        v = np.ascontiguousarray(a).view(np.uint64)
+    elif a.dtype.kind in "iu":
+        v = a
+    else:
+        return "bad-dtype-%s" % a.dtype
+    return ";".join(" ".join(str(int(x)) for x in row) for row in v)
+
+
+def _canon_any(call):
+    """run `call()` and put what the caller sees into the drivers' reply format"""
+    import pandas as pd
+
+    try:
+        with np.errstate(all="ignore"), warnings.catch_warnings():
+            warnings.simplefilter("ignore")
+            r = call()
+    except ValueError:
+        return "value-error"
+    except TypeError:
+        return "type-error"
+    except Exception as ex:  # noqa: BLE001  (an IndexError/KeyError escaping from the code under test is a result)
+        return "raises-" + type(ex).__name__
+
+    def frame(df, want_kind):
+        if not isinstance(df, pd.DataFrame):
+            return None
+        idx = df.index
+        if not (isinstance(idx, pd.RangeIndex) and idx.start == 0 and idx.step == 1 and idx.stop == len(df)):
+            return "bad-index"
+        a = df.to_numpy()
+        if a.dtype.kind != want_kind:
+            return "bad-dtype-%s" % a.dtype
+        return ",".join(str(c) for c in df.columns) + "|" + _rows(a)
+
+    if isinstance(r, tuple):
+        if len(r) != 2:
+            return "bad-tuple-%d" % len(r)
+        f0, f1 = frame(r[0], "f"), frame(r[1], "i")
+        if f0 is not None and f1 is not None:
+            return "frames " + f0 + "|" + f1
+        if f0 is not None or f1 is not None:
+            return "bad-mixed"
+        if not (isinstance(r[0], np.ndarray) and isinstance(r[1], np.ndarray)):
+            return "bad-type"
+        if r[0].dtype != np.float64 or r[1].dtype.kind != "i" or r[0].shape[1:] != (3,) or r[1].shape[1:] != (2,):
+            return "bad-shape-%s-%s-%s-%s" % (r[0].dtype, r[0].shape, r[1].dtype, r[1].shape)
+        return "tables " + _rows(r[0]) + "|" + _rows(r[1])
+    f0 = frame(r, "f")
+    if f0 is not None:
+        return "frame " + f0
+    if not isinstance(r, np.ndarray):
+        return "bad-type"
+    if r.dtype != np.float64 or r.shape[1:] != (3,):
+        return "bad-shape-%s-%s" % (r.dtype, r.shape)
+    return "table " + _rows(r)
+
+
+def _gen_doubles(ctx, n):
+    """arbitrary finite doubles (not dyadic: differences and sums round)"""
+    g = ctx.np_rng(505)
+    out = []
+    for _ in range(n):
+        L = int(g.integers(2, 60)) if g.random() < 0.9 else int(g.integers(60, 400))
+        style = int(g.integers(0, 7))
+        if style == 0:
+            x = g.normal(size=L)
+        elif style == 1:
+            x = g.uniform(-1, 1, size=L) * 10.0 ** g.integers(-300, 300)
+        elif style == 2:
+            x = np.round(g.normal(size=L), 1)                      # many near ties, 0.1-grid (not dyadic)
+        elif style == 3:
+            x = 1.0 + g.integers(-3, 4, size=L) * 2.0 ** -52       # neighbours of 1.0
+        elif style == 4:
+            x = g.choice([0.1, 0.2, 0.3, 0.7, -0.1, -0.0, 0.0, 5e-324, -5e-324, 1e308, -1e308], size=L)
+        elif style == 5:
+            x = np.cumsum(g.normal(size=L))
+        else:
+            x = g.uniform(-1, 1, size=L) * g.choice([1e-310, 1.0, 1e300], size=L)
+        out.append(np.asarray(x, dtype=np.float64))
+    return out
+
+
+class _Unaligned:
+    pass
+
+
+def _containers(x):
+    """every container / dtype / shape variant of the float64 vector `x` (small integers):
+    (kind, object, in-domain?)"""
+    import array as pyarray
+    import pandas as pd
+
+    L = len(x)
+    xi = x.astype(np.int64)
+    perm = np.argsort((xi * 2654435761 + np.arange(L) * 40503) % 1000003, kind="stable")
+    out = [
+        ("list", x.tolist()), ("tuple", tuple(x.tolist())), ("list-int", [int(v) for v in xi]),
+        ("series", pd.Series(x)), ("series-permuted-index", pd.Series(x, index=perm)),
+        ("series-offset-index", pd.Series(x, index=np.arange(L) + 5)), ("series-reversed", pd.Series(x)[::-1]),
+        ("series-str-index", pd.Series(x, index=["k%d" % i for i in range(L)])),
+        ("index", pd.Index(x)), ("memoryview", memoryview(x.copy())), ("array.array-d", pyarray.array("d", x.tolist())),
+        ("array.array-i", pyarray.array("i", [int(v) for v in xi])), ("range", range(L)),
+        ("0-d-npfloat", np.float64(x[0])), ("0-d-array", np.array(x[0])), ("pyfloat", float(x[0])), ("pyint", int(xi[0])),
+        ("1xn", x[None, :].copy()), ("nx1", x[:, None].copy()), ("3-d", x.reshape(1, 1, -1).copy()),
+        ("list-of-lists", [x.tolist()]), ("empty-list", []), ("empty-array", np.zeros(0)), ("one-point", [float(x[0])]),
+        ("one-point-array", x[:1].copy()), ("two-points", x[:2].copy()),
+        ("strided", np.column_stack([x, x + 1])[:, 0]), ("negative-stride", x[::-1].copy()[::-1]),
+        ("fortran-row", np.asfortranarray(np.vstack([x, x]))[0]), ("byteswapped", x.astype(">f8")),
+    ]
+    ro = x.copy()
+    ro.setflags(write=False)
+    out.append(("read-only", ro))
+    buf = np.zeros(8 * L + 1, dtype=np.uint8)
+    un = np.ndarray((L,), dtype=np.float64, buffer=buf, offset=1)
+    un[:] = x
+    out.append(("unaligned", un))
+    for dt in ("int8", "int16", "int32", "int64", "uint8", "uint16", "uint32", "uint64", "float16", "float32",
+               "float64", "longdouble"):
+        y = (xi - xi.min()) if dt.startswith("u") else xi
+        if np.abs(y).max() < 100:
+            out.append(("dtype-" + dt, y.astype(dt)))
+    out.append(("dtype-bool", xi > np.median(xi)))
+    return out
+
+
+def _nd_of(obj):
+    """(shape, float64 data, casts-safely?) as numpy sees the object; None when it is outside the
+    property's domain (complex, object, string arrays)"""
+    a = np.asarray(obj)
+    if a.dtype.kind not in "biuf":
+        return None
+    with np.errstate(all="ignore"):
+        return a.shape, a.astype(np.float64).ravel(), bool(np.can_cast(a.dtype, np.float64, "safe"))
+
+
+_GOPTS = [("-", ()), ("1", (True,)), ("0", (False,)), ("1", (1,)), ("0", (0,)), ("1", "kw-true"), ("0", "kw-false")]
+
+
+def _call_with(fn, obj, gopt, up=None):
+    args = gopt[1]
+    kw = {}
+    if args == "kw-true":
+        args, kw = (), {"getoffsets": True}
+    elif args == "kw-false":
+        args, kw = (), {"getoffsets": False}
+    if up is not None:
+        kw["use_pandas"] = up
+    return lambda: fn(obj, *args, **kw)
+
+
+def _thunk(fn, obj, *args, **kw):
+    """the call `fn(obj, *args, **kw)`, to be made later (in a forked child); arrays are handed over as fresh copies"""
+    if isinstance(obj, np.ndarray) and type(obj) is np.ndarray and obj.flags.aligned and obj.flags.c_contiguous \
+            and obj.dtype == np.float64 and obj.flags.writeable:
+        return lambda: fn(obj.copy(), *args, **kw)
+    return lambda: fn(obj, *args, **kw)
+
+
+def _streams_float(ctx, impls, cases):
+    """generated programs and entry model, run at IEEE doubles, against the real code"""
+    from pyyeti.rainflow import py_rain
+    from pyyeti import cyclecount
+
+    rng = ctx.rng
+    availc = 1 if cyclecount.rain.__name__.endswith("c_rain") else 0
+    ctx.extra["cyclecount_rain"] = cyclecount.rain.__name__
+
+    def wrapper_over_py(p, g, up):
+        old = cyclecount.rain
+        cyclecount.rain = py_rain
+        try:
+            return cyclecount.rainflow(p, g, up)
+        finally:
+            cyclecount.rain = old
+
+    greq, gwant = [], []     # generated driver: request, (stream, tag, call to make on the real code)
+    mreq, mwant = [], []     # model driver
+
+    def vec_streams(x, tag, full):
+        nd = _nd((len(x),), x)
+        for g in (1, 0):
+            greq.append("ge %d %s" % (g, nd))
+            gwant.append(("generated-py-entry", tag, _thunk(py_rain.rainflow, x, bool(g))))
+        if len(x) >= 2:
+            for which, name, g in (("2f", "cfast", True), ("1f", "cfast", False), ("2s", "cslow", True), ("1s", "cslow", False)):
+                if name in impls:
+                    greq.append("gc %s %s" % (which, nd))
+                    gwant.append(("generated-c-" + which, tag, _thunk(impls[name], x, g)))
+        if full:
+            for g in (1, 0):
+                for up in (1, 0):
+                    greq.append("gw %d %d %s" % (g, up, nd))
+                    gwant.append(("generated-wrapper", tag, _thunk(wrapper_over_py, x, bool(g), bool(up))))
+            for name, fn in impls.items():
+                if name == "wrapper":
+                    continue
+                for gtxt, gval in (("1", True), ("0", False), ("-", None)):
+                    mreq.append("me %s %s 1 %s" % ("py" if name == "py" else "c", gtxt, nd))
+                    mwant.append(("entry-model-" + name, tag, _thunk(fn, x) if gval is None else _thunk(fn, x, gval)))
+            for gtxt, gval in (("1", True), ("0", False), ("-", None)):
+                for utxt, uval in (("1", True), ("0", False), ("-", None)):
+                    kw = {}
+                    if gval is not None:
+                        kw["getoffsets"] = gval
+                    if uval is not None:
+                        kw["use_pandas"] = uval
+                    mreq.append("mw %d %s %s 1 %s" % (availc, gtxt, utxt, nd))
+                    mwant.append(("wrapper-model", tag, _thunk(cyclecount.rainflow, x, **kw)))
+
+    # (a) the integer/dyadic cases of the list-model streams (a sample of the exhaustive ones)
+    ex_every, rnd_every = ctx.pick((11, 1), (67, 7))   # about 8 000 + 6 000 (quick) / 7 000 + 8 500 (thorough) vectors
+    for i, (seq, scale, style) in enumerate(cases):
+        if style == "exhaustive" and i % ex_every:
+            continue
+        if style not in ("exhaustive", "corpus", "malformed") and i % rnd_every:
+            continue
+        if len(seq) > 400 and i % 4:
+            continue
+        x = np.array(seq, dtype=float) / scale
+        vec_streams(x, {"seq": list(seq), "scale": scale}, full=(i % 5 == 0))
+        ctx.count("float:dyadic")
+    # (b) arbitrary doubles
+    for k, x in enumerate(_gen_doubles(ctx, ctx.pick(700, 3000))):
+        vec_streams(x, {"bits": _bits(x)}, full=(k % 3 == 0))
+        with np.errstate(all="ignore"):
+            d = np.diff(x)
+        ctx.case(("dbl", x.tobytes()), nontrivial=len(x) >= 3, branch="float:non-dyadic")
+        if np.any(np.abs(d[1:]) == np.abs(d[:-1])) if len(d) > 1 else False:
+            ctx.count("float:exact-tie")
+    # (c) containers, dtypes, shapes on every entry point
+    bases = [np.array(s, dtype=float) for s in ([1, 3, 2, 5, 0], [0, 1], [2, 2, 2], [4, 0, 3, 1, 2, 1, 3, 0, 4],
+                                                [1, 0, 1, 0, 1, 0, 1])]
+    for _ in range(ctx.pick(6, 40)):
+        bases.append(np.array([rng.randint(0, 9) for _ in range(rng.randint(2, 14))], dtype=float))
+    for x in bases:
+        for kind, obj in _containers(x):
+            ndo = _nd_of(obj)
+            if ndo is None:
+                ctx.skip("container outside the domain: " + kind)
+                continue
+            shape, data, safe = ndo
+            nd = _nd(shape, data)
+            tag = {"seq": [int(v) for v in x], "scale": 1, "container": kind}
+            ctx.case(("cont", kind, x.tobytes()), nontrivial=True, branch="container:" + kind.split("-")[0])
+            for gtxt, gval in (("1", True), ("0", False)):
+                for name, fn in impls.items():
+                    if name == "wrapper":
+                        for utxt, uval in (("1", True), ("0", False)):
+                            mreq.append("mw %d %s %s %d %s" % (availc, gtxt, utxt, int(safe), nd))
+                            mwant.append(("wrapper-container", tag, _thunk(cyclecount.rainflow, obj, gval, uval)))
+                        continue
+                    mreq.append("me %s %s %d %s" % ("py" if name == "py" else "c", gtxt, int(safe), nd))
+                    mwant.append(("entry-container-" + name, tag, _thunk(fn, obj, gval)))
+                greq.append("ge %s %s" % (gtxt, nd))
+                gwant.append(("generated-py-container", tag, _thunk(py_rain.rainflow, obj, gval)))
+    # (d) call sequences: one session on one set of modules; every call must be what it is on its own
+    targets = [n for n in impls if n != "wrapper"] + ["wrapper"]
+    for sess in range(ctx.pick(40, 400)):
+        calls = []
+        for _ in range(rng.randint(3, 9)):
+            t = rng.choice(targets)
+            x = np.array([rng.randint(0, 6) for _ in range(rng.choice([0, 1, 2, 3, 5, 8]))], dtype=float)
+            gopt = rng.choice(_GOPTS)
+            up = rng.choice([None, True, False]) if t == "wrapper" else None
+            calls.append((t, x, gopt, up))
+        hist = []
+        for t, x, gopt, up in calls:
+            nd = _nd((len(x),), x)
+            hist.append("%s(g=%s%s)" % (t, gopt[0] if gopt[1] == () or not isinstance(gopt[1], str) else gopt[1],
+                                         "" if up is None else ",up=%s" % up))
+            tag = {"seq": [int(v) for v in x], "scale": 1, "session": list(hist)}
+            if t == "wrapper":
+                mreq.append("mw %d %s %s 1 %s" % (availc, gopt[0], "-" if up is None else str(int(up)), nd))
+                mwant.append(("call-sequence-wrapper", tag, _call_with(cyclecount.rainflow, x, gopt, up)))
+            else:
+                mreq.append("me %s %s 1 %s" % ("py" if t == "py" else "c", gopt[0], nd))
+                mwant.append(("call-sequence-" + t, tag, _call_with(impls[t], x, gopt)))
+            if gopt[0] == "-" and len(hist) > 1 and "g=1" in hist[-2]:
+                ctx.count("callseq:omitted-after-true")
+        ctx.case(("sess", sess, tuple(hist)), nontrivial=True, branch="callseq:session")
+    # the calls on the real code are made in forked children, in order (a session's calls share one set of modules
+    # unless a chunk boundary falls between them): a mutation that corrupts memory is a result, not the end of the check
+    vals = isolated_map(lambda w: _canon_any(w[2]), mwant + gwant, chunk=3000)
+    mwant = [(w[0], w[1], v) for w, v in zip(mwant, vals[:len(mwant)])]
+    gwant = [(w[0], w[1], v) for w, v in zip(gwant, vals[len(mwant):])]
+    # ask the drivers
+    mrep = ctx.driver("C05").ask(mreq)
+    try:
+        grep = ctx.driver("C05Gen").ask(greq)
+    except Infra as e:
+        if generated_changed(sys.modules[__name__]):
+            raise TieBroken("the regenerated embedding (Generated/PyRain.lean, RainflowWrap.lean) does not elaborate: %s"
+                            % str(e)[-400:])
+        raise
+    # the list model computes a range as `if a < b then b - a else a - b`: for a = -0.0, b = +0.0 that is -0.0 where
+    # abs(a - b) is +0.0 -- the same number; the translated programs call abs and are compared bit for bit
+    mrep = [r.replace(";%d " % 2 ** 63, ";0 ").replace("|%d " % 2 ** 63, "|0 ").replace("s %d " % 2 ** 63, "s 0 ")
+            .replace("e %d " % 2 ** 63, "e 0 ") for r in mrep]
+    for (stream, tag, want), got in list(zip(mwant, mrep)) + list(zip(gwant, grep)):
+        kind = got.split(" ")[0]
+        ctx.count("reply:" + stream.split("-")[0] + ":" + kind)
+        if stream.startswith("generated-c-"):
+            ctx.count("stream:" + stream)
+        if got != want:
+            ctx.disagree(stream, tag, want[:300], got[:300])
+    ctx.extra["float_stream_requests"] = {"model_driver": len(mreq), "generated_driver": len(greq)}
 
 
 # ---------------------------------------------------------------------------------------
@@ -359,6 +769,7 @@ def _oracle_one(ctx, impls, seq, scale):
             if not (0 <= s < e < L) or r[0] != abs(x[s] - x[e]) / 2 or r[1] != (x[s] + x[e]) / 2:
                 ctx.fail("cycle-values", "row does not match the points its offsets name", inp, [r, o], "amp,mean of x[s],x[e]")
                 break
+        _oracle_structure(ctx, name, inp, x, rf, os_)
     # the same numbers handed over in other dtypes (raw integer counts, single precision): same table
     if hash(tuple(seq)) % 3 == 0 and L >= 2:
         si = np.array(seq, dtype=np.int64)
@@ -419,37 +830,204 @@ def _oracle_one(ctx, impls, seq, scale):
                 ctx.fail("symmetry-" + tag, "table does not transform in the obvious way under " + tag,
                          {"seq": list(seq), "scale": scale, "impl": name}, r2.tolist()[:8], want.tolist()[:8])
     # largest range counted (true reversal sequences only)
-    d = np.diff(x)
+    with np.errstate(all="ignore"):
+        d = np.diff(x)
     if L >= 2 and np.all(d != 0) and np.all(d[1:] * d[:-1] < 0):
         if rf[:, 0].max() * 2 != x.max() - x.min():
             ctx.fail("largest-range", "overall range is not among the counted ranges",
                      {"seq": list(seq), "scale": scale}, float(rf[:, 0].max() * 2), float(x.max() - x.min()))
 
 
+
+def _want_rows(x):
+    ref = _astm_reference(np.asarray(x, float).tolist())
+    return [tuple(float(v) for v in r[:3]) + (r[3], r[4]) for r in ref]
+
+
+def _got_rows(rf, os_):
+    return [tuple(r) + tuple(o) for r, o in zip(np.asarray(rf).tolist(), np.asarray(os_).tolist())]
+
+
+def _oracle_structure(ctx, name, inp, x, rf, os_):
+    """the structure theorems restated on the real output"""
+    L = len(x)
+    rf = np.asarray(rf)
+    os_ = np.asarray(os_)
+    n = rf.shape[0]
+    full = rf[:, 2] == 1.0
+    if rf.ndim != 2 or rf.shape[1] != 3 or os_.shape != (n, 2) or os_.dtype.kind != "i" or rf.dtype != np.float64 \
+            or n != L - 1 - int(full.sum()) or not np.all((rf[:, 2] == 1.0) | (rf[:, 2] == 0.5)):
+        ctx.fail("result-shape", "%s: table is not (L-1-fullcycles) x 3 float64 with an equally long x 2 integer offsets "
+                 "table" % name, inp, [list(rf.shape), str(rf.dtype), list(os_.shape), str(os_.dtype)],
+                 [L - 1 - int(full.sum()), 3, 2])
+        return
+    s, e = os_[:, 0], os_[:, 1]
+    for i in range(n):
+        lat = (e[i + 1:] < s[i]) | (e[i] < s[i + 1:]) | ((s[i + 1:] < s[i]) & (e[i] < e[i + 1:])) if full[i] \
+            else (e[i] <= s[i + 1:])
+        if not np.all(lat):
+            j = i + 1 + int(np.argmin(lat))
+            ctx.fail("structure-closing-order", "%s: a row is listed after a row whose span it reaches into" % name, inp,
+                     [os_[i].tolist(), bool(full[i]), os_[j].tolist()], "later rows avoid the span of earlier ones")
+            break
+    if len(set(s.tolist())) != n or len(set(e.tolist())) != n:
+        ctx.fail("structure-unique-endpoints", "%s: an offset is start (or stop) of two rows" % name, inp,
+                 os_.tolist()[:12], "starts distinct, stops distinct")
+    h = os_[~full]
+    if L >= 2 and (len(h) == 0 or h[0, 0] != 0 or h[-1, 1] != L - 1 or np.any(h[1:, 0] != h[:-1, 1])):
+        ctx.fail("structure-half-chain", "%s: the half cycles do not chain from offset 0 to L-1" % name, inp,
+                 h.tolist()[:12], "0 = s1, e_i = s_(i+1), e_m = L-1")
+    if n and rf[:, 0].max() * 2 > x.max() - x.min():
+        ctx.fail("structure-range-bound", "%s: a counted range exceeds the overall range" % name, inp,
+                 float(rf[:, 0].max() * 2), float(x.max() - x.min()))
+
+
+def _oracle_entry(ctx, impls, seq, scale):
+    """containers / dtypes / shapes, the wrapper's packaging and call sequences, model-free"""
+    import pandas as pd
+    from pyyeti import cyclecount
+
+    x = np.array(seq, dtype=float) / scale
+    base = {"seq": list(seq), "scale": scale}
+    fns = dict(impls)
+    fns["wrapper-pandas"] = lambda p, getoffsets=False: cyclecount.rainflow(p, getoffsets)
+
+    def run(fn, obj, g):
+        try:
+            with np.errstate(all="ignore"), warnings.catch_warnings():
+                warnings.simplefilter("ignore")
+                r = fn(obj, getoffsets=g)
+            return "ok", r
+        except Exception as ex:  # noqa: BLE001
+            return type(ex).__name__, str(ex)[:100]
+
+    if float(np.abs(x).max()) < 100 and np.all(x == np.round(x)) and len(x) >= 2:
+        for kind, obj in _containers(x):
+            ndo = _nd_of(obj)
+            if ndo is None:
+                continue
+            shape, data, _safe = ndo
+            vector = len(shape) == 1 and shape[0] >= 2
+            want = _want_rows(data) if vector else None
+            inp = dict(base, container=kind)
+            fam = kind if kind.startswith("dtype-") else "container-" + kind
+            for name, fn in fns.items():
+                st, r = run(fn, obj, True)
+                st1, r1 = run(fn, obj, False)
+                inp2 = dict(inp, impl=name)
+                if not vector:
+                    if st != "ValueError" or st1 != "ValueError":
+                        ctx.fail("refusal-" + kind, "%s does not refuse (ValueError) a %s input that is not a vector of at "
+                                 "least two points" % (name, kind), inp2, [st, st1], "ValueError")
+                    continue
+                if st != "ok" or st1 != "ok":
+                    ctx.fail(fam + "-raises", "%s refuses a real vector handed over as %s" % (name, kind), inp2,
+                             [st, str(r)[:80]] if st != "ok" else [st1, str(r1)[:80]], "the cycle table")
+                    continue
+                got = _got_rows(r[0].to_numpy() if isinstance(r[0], pd.DataFrame) else r[0],
+                                r[1].to_numpy() if isinstance(r[1], pd.DataFrame) else r[1])
+                plain = r1.to_numpy() if isinstance(r1, pd.DataFrame) else np.asarray(r1)
+                if got != want or plain.tolist() != [list(w[:3]) for w in want]:
+                    ctx.fail(fam, "%s: the table for the vector handed over as %s is not the table of the same numbers"
+                             % (name, kind), inp2, got[:8], want[:8])
+    # the wrapper's packaging
+    if len(x) >= 2:
+        try:
+            ref_rf, ref_os = cyclecount.rain.rainflow(x, True)
+            res = {(g, up): cyclecount.rainflow(x, g, **({} if up is None else {"use_pandas": up}))
+                   for g in (True, False) for up in (True, False, None)}
+        except Exception as ex:  # noqa: BLE001
+            ctx.fail("wrapper-raises", "cyclecount.rainflow raises on a valid vector", base, repr(ex)[:120], "a cycle table")
+            res = {}
+        for (g, up), r in res.items():
+            if True:
+                parts = r if g else (r,)
+                inp = dict(base, getoffsets=g, use_pandas=up)
+                if (up is False) != all(isinstance(q, np.ndarray) for q in parts) or \
+                        (up is not False) != all(isinstance(q, pd.DataFrame) for q in parts) or len(parts) != (2 if g else 1):
+                    ctx.fail("wrapper-type", "cyclecount.rainflow returns the wrong kind of object", inp,
+                             [type(q).__name__ for q in parts], "DataFrames iff use_pandas")
+                    continue
+                for q, cols, ref in zip(parts, (["amp", "mean", "count"], ["start", "stop"]), (ref_rf, ref_os)):
+                    vals = q.to_numpy() if isinstance(q, pd.DataFrame) else q
+                    if vals.shape != np.asarray(ref).shape or vals.tolist() != np.asarray(ref).tolist():
+                        ctx.fail("wrapper-values", "cyclecount.rainflow does not return the implementation's numbers", inp,
+                                 vals.tolist()[:6], np.asarray(ref).tolist()[:6])
+                    if isinstance(q, pd.DataFrame):
+                        if list(q.columns) != cols:
+                            ctx.fail("wrapper-columns", "DataFrame columns are not %s" % cols, inp, list(q.columns), cols)
+                        if list(q.index) != list(range(len(q))):
+                            ctx.fail("wrapper-index", "DataFrame index is not 0..n-1", inp, list(q.index)[:8], "0..n-1")
+    # call sequences: a session on ONE set of modules with alternating options; every call is what it is on its own
+    r = np.random.default_rng(abs(hash((tuple(seq), scale))) % (2 ** 32))
+    vecs = [x, x[::-1].copy(), np.array([3.0, 1.0, 2.0]), np.array([1.0]), x[:2].copy()]
+    for name, fn in impls.items():
+        if name == "wrapper":
+            continue
+        hist = []
+        for _ in range(6):
+            y = vecs[int(r.integers(0, len(vecs)))]
+            gopt = _GOPTS[int(r.integers(0, len(_GOPTS)))]
+            hist.append("g=" + (gopt[0] if not isinstance(gopt[1], str) else gopt[1]))
+            try:
+                got = _call_with(fn, y, gopt)()
+                st = "ok"
+            except Exception as ex:  # noqa: BLE001
+                got, st = None, type(ex).__name__
+            inp = dict(base, impl=name, session=list(hist), peaks=y.tolist())
+            if len(y) < 2:
+                if st != "ValueError":
+                    ctx.fail("call-history-" + name, "a call in a session accepts fewer than two points", inp, st, "ValueError")
+                continue
+            want = _want_rows(y)
+            if st != "ok":
+                ctx.fail("call-history-" + name, "a call in a session refuses a valid vector", inp, st, "the cycle table")
+            elif gopt[0] == "1":
+                if not isinstance(got, tuple) or _got_rows(got[0], got[1]) != want:
+                    ctx.fail("call-history-" + name, "a call with getoffsets=True in a session does not return (rf, os) of "
+                             "its own arguments", inp, str(got)[:120], want[:6])
+            else:
+                if isinstance(got, tuple) or np.asarray(got).tolist() != [list(w[:3]) for w in want]:
+                    ctx.fail("call-history-" + name, "a call without offsets in a session does not return the plain table "
+                             "of its own arguments (its result depends on an earlier call)", inp,
+                             "tuple" if isinstance(got, tuple) else np.asarray(got).tolist()[:6], [list(w[:3]) for w in want][:6])
+
 def search(ctx, hints):
     impls = _impls(ctx)
-    cases = [(tuple(h["input"]["seq"]), h["input"]["scale"]) for h in hints[:50] if len(h["input"]["seq"]) >= 2]
+    cases = [(tuple(h["input"]["seq"]), h["input"]["scale"]) for h in hints[:50]
+             if "seq" in h["input"] and len(h["input"]["seq"]) >= 2]
     cases += [(s, sc) for s, sc, _ in _corpus(ctx)]
+    cases += [((1, 3, 2, 5, 0), 1), ((4, 0, 3, 1, 2, 1, 3, 0, 4), 1), ((0, 5, 5, 1), 1)]
+    nfirst = len(cases)
     for L in range(2, 7):
         for seq in itertools.product(range(4), repeat=L):
             cases.append((seq, 1))
     cases += [(s, sc) for s, sc, _ in _gen_random(ctx, ctx.pick(1500, 15000))]
+    # the entry-point oracle (containers, wrapper packaging, sessions) on the hints, the corpus and every 9th (thorough: 40th) case
+    every = ctx.pick(9, 40)
+    cases = [(c[0], c[1], i < nfirst or i % every == 0) for i, c in enumerate(cases)]
     def one(case):
         sub = type(ctx).__new__(type(ctx))
         sub.failures = []
         sub.fail = lambda *a: type(ctx).fail(sub, *a)
         _oracle_one(sub, impls, case[0], case[1])
+        if case[2]:
+            _oracle_entry(sub, impls, case[0], case[1])
         return sub.failures
 
     res = isolated_map(one, cases, chunk=2000)
     for case, r in zip(cases, res):
         ctx.count("oracle-cases")
         if isinstance(r, str):
+            if sum(1 for g in ctx.failures if g["family"] == "crash") >= 4:
+                continue
             ctx.fail("crash", "the compiled routine crashes the interpreter (%s)" % r,
                      {"seq": list(case[0]), "scale": case[1]}, r, "a cycle table")
         else:
-            ctx.failures.extend(r)
-        if len(ctx.failures) > 20:
+            for f in r:   # a few inputs per family; a standing family must not crowd out another one
+                if sum(1 for g in ctx.failures if g["family"] == f["family"]) < 4:
+                    ctx.failures.append(f)
+        if len({g["family"] for g in ctx.failures}) > 8:
             break
 
 
@@ -460,7 +1038,8 @@ def replay(ctx, data):
 
     def one(c):
         _oracle_one(ctx, impls, c[0], c[1])
-        return ctx.failures
+        _oracle_entry(ctx, impls, c[0], c[1])
+        return [g for g in ctx.failures if g["family"] == f["family"]] or ctx.failures
 
     r = isolated_map(one, [case])[0]
     if isinstance(r, str):
